@@ -67,6 +67,13 @@ class TrackMachine(ohist.Machine):
             # built with the right length, then its arrays are replaced by longer ones (public
             # attributes): its real frame count no longer matches the block
             x = specs.build_item(t, good_track(t, n, k), self.base())
+            for attr in ("nFrames", "nSamples", "nBytes"):   # the track has been looked at before it changes
+                getattr(x, attr, None)
+            probe = self.block()
+            try:
+                self.add(probe, x)                          # ... and has even been accepted by another block
+            except Exception:  # noqa: BLE001
+                pass
             longer = specs.build_item(t, good_track(t, n + 2, k), self.base())
             for attr in ("data", "application_point", "force", "torque"):
                 if hasattr(longer, attr) and isinstance(getattr(longer, attr), np.ndarray):
